@@ -30,6 +30,10 @@ enum Extra {
 enum Scenario {
     Perm { kind: Kind, n: usize, perm: Vec<usize>, extra: Extra, pos: usize, burst: bool },
     Batch { kind: Kind, n: usize, perm: Vec<usize> },
+    /// `batch_json_with_timeout`: the requests whose bit is set in `silent` are never answered (they run into
+    /// the per-request timeout while the connection stays healthy), the others are answered in `perm` order
+    /// before the timeout passes; every position reports its OWN outcome
+    BatchTimeout { kind: Kind, n: usize, silent: u32, reversed: bool },
     /// the blocking Client over real loopback TCP: n caller threads, scripted peer
     PermBlocking { n: usize, perm: Vec<usize>, extra: Extra, pos: usize },
     BatchBlocking { n: usize, perm: Vec<usize> },
@@ -145,6 +149,17 @@ fn scenarios(tier: Tier) -> Vec<Scenario> {
             }
         }
     }
+    // appended below (after every earlier scenario): batches in which some requests time out
+    let mut batch_timeouts = Vec::new();
+    for kind in [Kind::Async, Kind::Ws] {
+        for n in 2..=tier.pick(4, 6) {
+            for silent in 1..(1u32 << n) - 1 {
+                for reversed in [false, true] {
+                    batch_timeouts.push(Scenario::BatchTimeout { kind, n, silent, reversed });
+                }
+            }
+        }
+    }
     for n in 1..=tier.pick(4, 5) {
         for perm in permutations(n) {
             let mut extras = vec![Extra::None, Extra::Unknown];
@@ -247,6 +262,7 @@ fn scenarios(tier: Tier) -> Vec<Scenario> {
             }
         }
     }
+    v.extend(batch_timeouts);
     v
 }
 
@@ -393,6 +409,62 @@ async fn run_perm_sub(kind: Kind, n: usize, perm: &[usize], extra: Extra, pos: u
     }
     drop(peer);
     (bad, flags)
+}
+
+async fn run_batch_timeout(kind: Kind, n: usize, silent: u32, reversed: bool) -> (Bad, u64) {
+    let mut bad = Bad::new();
+    let ctx = format!("{} batch_json_with_timeout of {n}, positions {:?} never answered, the others answered {}", kind.name(), (0..n).filter(|i| silent & (1 << i) != 0).collect::<Vec<_>>(), if reversed { "last first" } else { "in order" });
+    let Conn { cli, mut peer, .. } = clients::connect(kind).await;
+    let tags: Vec<u64> = (0..n as u64).map(|i| 700 + i).collect();
+    let h = tokio::spawn(cli.batch_with_timeout(tags.clone(), std::time::Duration::from_secs(5)));
+    let reqs = match peer.drain_requests().await {
+        Ok(r) => r,
+        Err(e) => return (vec![("C04:request-stream-malformed".into(), e)], 0),
+    };
+    let ids = clients::tag_ids(&reqs);
+    if ids.len() != n {
+        return (vec![("C04:requests-missing".into(), format!("{ctx}: {} requests arrived", reqs.len()))], 0);
+    }
+    let mut order: Vec<usize> = (0..n).filter(|i| silent & (1 << i) == 0).collect();
+    if reversed {
+        order.reverse();
+    }
+    for i in order {
+        peer.send(&clients::reply(ids[&tags[i]])).await;
+        memstream::settle().await;
+    }
+    tokio::time::advance(std::time::Duration::from_secs(6)).await;
+    memstream::settle().await;
+    match tokio::time::timeout(clients::HOUR, h).await {
+        Ok(Ok(results)) => {
+            if results.len() != n {
+                bad.push(("C04:batch-length".into(), format!("{ctx}: {} results", results.len())));
+            }
+            for (i, r) in results.into_iter().enumerate() {
+                let r = clients::classify(r);
+                if silent & (1 << i) != 0 {
+                    if matches!(r, Res::Id(_)) {
+                        bad.push(("C04:batch-misaligned".into(), format!("{ctx}: result #{i} is {r:?} although that request was never answered")));
+                    }
+                } else if r != Res::Id(ids[&tags[i]]) {
+                    bad.push(("C04:batch-misaligned".into(), format!("{ctx}: result #{i} is {r:?}; the request at that position (id {}) was answered in time", ids[&tags[i]])));
+                }
+            }
+        }
+        _ => bad.push(("C04:wrong-response:hang".into(), format!("{ctx}: the batch did not return"))),
+    }
+    // the connection is healthy: one more call is served
+    let h = tokio::spawn(cli.call(799, None, 0));
+    if let Ok(reqs) = peer.drain_requests().await {
+        if let Some(id) = clients::tag_ids(&reqs).get(&799) {
+            peer.send(&clients::reply(*id)).await;
+            let r = clients::join_call(h).await;
+            if r != Res::Id(*id) {
+                bad.push(("C04:wrong-response:after-batch-timeouts".into(), format!("{ctx}: a call issued afterwards returned {r:?}")));
+            }
+        }
+    }
+    (bad, 8)
 }
 
 async fn run_batch(kind: Kind, n: usize, perm: &[usize]) -> (Bad, u64) {
@@ -1102,6 +1174,7 @@ pub fn run(tier: Tier) -> ! {
                 match sc {
                     Scenario::Perm { kind, n, perm, extra, pos, burst } => run_perm(*kind, *n, perm, *extra, *pos, *burst).await,
                     Scenario::Batch { kind, n, perm } => run_batch(*kind, *n, perm).await,
+                    Scenario::BatchTimeout { kind, n, silent, reversed } => run_batch_timeout(*kind, *n, *silent, *reversed).await,
                     Scenario::Early { k, queued_behind } => run_early(*k, *queued_behind).await,
                     Scenario::ForwardDuplicate { n, victim } => run_forward_duplicate(*n, *victim).await,
                     Scenario::PermBlocking { n, perm, extra, pos } => run_perm_blocking(*n, perm, *extra, *pos, false),
@@ -1187,6 +1260,7 @@ pub fn replay(case: &Value) -> Result<(), String> {
         match sc {
             Scenario::Perm { kind, n, perm, extra, pos, burst } => run_perm(*kind, *n, perm, *extra, *pos, *burst).await,
             Scenario::Batch { kind, n, perm } => run_batch(*kind, *n, perm).await,
+                    Scenario::BatchTimeout { kind, n, silent, reversed } => run_batch_timeout(*kind, *n, *silent, *reversed).await,
             Scenario::Early { k, queued_behind } => run_early(*k, *queued_behind).await,
             Scenario::ForwardDuplicate { n, victim } => run_forward_duplicate(*n, *victim).await,
             Scenario::PermBlocking { n, perm, extra, pos } => run_perm_blocking(*n, perm, *extra, *pos, false),
